@@ -194,7 +194,10 @@ pub fn identifier_checks(w: &mut World, uuid: &str, t: &[(String, Option<String>
 /// C19 functional dependence across replicas and time: (content, parent) <-> identifier.
 pub fn note_revision_content(w: &mut World, uuid: &str, rev: &str, parent: &Option<String>, content: &serde_json::Value) -> Res {
     let canon = content.to_string();
-    let key = (canon.clone(), parent.clone().unwrap_or_default());
+    // a deletion / resolution marker reads as {"_deleted":true} / {"_resolved":true}, which a user may
+    // also store as ordinary content: the marker and the stored object are different contents
+    let marker = Rev::parse(rev).map_or(false, |rv| rv.digest == "d" || rv.digest == "r" || rv.digest == "e");
+    let key = (if marker { format!("marker:{}", canon) } else { canon.clone() }, parent.clone().unwrap_or_default());
     match w.rev_by_content.get(&key) {
         Some(old) if old != rev => {
             viol!(w, "identifier-function", "id-not-function-of-content", "the same content {} on the same parent {:?} has identifiers {} and {}", canon, parent, old, rev);
